@@ -310,6 +310,18 @@ def gen_problem(rng, tier, open_ends=False):
     if out and rng.random() < 0.15:
         i = rng.randrange(G)
         out[i][4] = rng.randint(1, G)           # possibly wrong / duplicated number
+    if len(pos) == G and G >= 2 and rng.random() < 0.12:
+        # exactly one or two numbers, wrong for BOTH directions of travel of the source loop
+        for g in out:
+            g[4] = -1
+        i = rng.randrange(G)
+        p0 = pos[tuple(out[i][:4])]
+        wrong = [v for v in range(1, G + 1) if v not in (p0, G + 1 - p0)]
+        if wrong:
+            out[i][4] = rng.choice(wrong)
+        else:
+            v = rng.randint(1, G)
+            out[0][4] = out[1][4] = v           # G == 2: the same number on both gates
     if out and not open_ends and rng.random() < 0.04:
         out[rng.randrange(G)][4] = G + 1        # READING: out of range -> no solution
         kind = "num>G"
